@@ -56,6 +56,65 @@ def c30(ctx):
             ctx.violation("match:offered", "incoming stream for (x, '') offered to solicitations %s, spec says %s of %s" % (o["offered"], admitted, c["dirs"]), c)
     ctx.traces += len(cases)
     ctx.sample({"solicitations": cases[-1]["dirs"], "observed": obs[-1]})
+    ctx.rule += ("; (c) SolicitExchange.tla: every big-step history of <= 5 add / link-up steps (and <= 4 with removals) plus a seeded sample of burst histories on two "
+                 "complete real nodes: every common solicitation is matched exactly once on both ends with the same stream, nothing else is; non-trivial = a solicitation "
+                 "added after the link exists, or a removal")
+    exchange(ctx)
+
+
+def exchange(ctx):
+    """SolicitExchange.tla: the control-stream exchange between the two ends of a link. Model-checked; all its histories within the bounds
+    are replayed on two complete real nodes (bus, transport controller + in-process transport, solicitation controller, real link);
+    SolicitExchangeMon.tla judges the number of streams every solicitation was handed at each quiescent point"""
+    import random
+    ctx.tlc("MC_SolicitExchange", cfg="MC_SolicitExchange.cfg", timeout=900, env={"MAXSTEP": "5"})
+
+    def hists(env, limit=None):
+        r = ctx.tlc("MC_SolicitExchange", cfg="MC_SolicitExchangeGen.cfg", timeout=900, env=env, count=False, workers=4)
+        hs = sorted({m.group(1).encode().decode("unicode_escape") for m in re.finditer(r'<<"HIST", "(.*)">>', r.out)})
+        if not hs:
+            raise vlib.Infra("SolicitExchange generator printed no history (%s)" % env)
+        if limit and len(hs) > limit:
+            random.Random(ctx.seed * 31 + 7).shuffle(hs)
+            hs = hs[:limit]
+        return [json.loads(h) for h in hs]
+    thorough = ctx.tier == "thorough"
+    behs = hists({"BIGSTEP": "1", "MAXSTEP": "4", "NOREMOVE": "1"}) + hists({"BIGSTEP": "1", "MAXSTEP": "5", "NOREMOVE": "1"}) + hists({"BIGSTEP": "1", "MAXSTEP": "4"})
+    behs += hists({"MAXSTEP": "4", "NOREMOVE": "1"}, None if thorough else 150)
+    behs += hists({"BIGSTEP": "1", "MAXSTEP": "5"}, None if thorough else 100)
+    if thorough:
+        behs += hists({"MAXSTEP": "4"}, 3000)
+    bpath = os.path.join(ctx.tmp, "se_behaviours.json")
+    json.dump(behs, open(bpath, "w"))
+    tpath = os.path.join(ctx.tmp, "se_trace.ndjson")
+    ctx.go_run("twonode", ["-cases", bpath, "-out", tpath], timeout=3000)
+    rows = vlib.read_ndjson(tpath)
+    if len([x for x in rows if x["e"] == "reset"]) != len(behs):
+        raise vlib.Infra("twonode: traces missing")
+    ctx.traces += len(behs)
+    ctx.evaluations += len([x for x in rows if x["e"] in ("q", "pair")])
+    ctx.cov["two_node_histories"] = len(behs)
+    ctx.cov["two_node_matches_observed"] = len([x for x in rows if x["e"] == "pair" and "ok" in x.values()])
+    for b in behs:
+        acts = [(s["a"], s["s"], s["x"]) for s in b]
+        li = next((i for i, a in enumerate(acts) if a[0] == "link"), len(acts))
+        if any(a[0] == "add" for a in acts[li + 1:]) or any(a[0] == "remove" for a in acts):
+            ctx.nontrivial.add("ex:" + json.dumps(acts))
+    ctx.sample({"two-node history": behs[len(behs) // 2], "final": [x for x in rows if x["e"] == "pair"][len(behs) // 2]})
+    ok, r = ctx.tlc_validate("SolicitExchangeMon", "SolicitExchangeMon.cfg", tpath, env={"PROP": "C30"}, dfs=False, timeout=1800)
+    if not ok:
+        if r.violated == "NoViolation":
+            tail = r.out[r.out.rfind("/\\ bad ="):]
+            bads = re.findall(r'<<\s*"(C\d+)",\s*"([^"]*)",\s*"([^"]*)",\s*(-?\d+)\s*>>', tail, re.S)
+            seen = set()
+            for b in bads:
+                if b[1] in seen:
+                    continue
+                seen.add(b[1])
+                h = behs[int(b[3])] if 0 <= int(b[3]) < len(behs) else None
+                ctx.violation("C30:exchange:%s" % b[1][:70], "%s (solicitation %s; history %s)" % (b[1], b[2], [(s["a"], s["s"], s["x"], s["w"]) for s in h] if h else "?"), {"history": h})
+        else:
+            raise vlib.Infra("SolicitExchangeMon did not consume the trace\n" + r.out[-2000:])
 
 
 def c31(ctx):
